@@ -426,17 +426,17 @@ func (c *channel) trySubmitCommandResult(respCmd *ResponseCommand) bool {
 		return false
 	}
 
-	c.processingCmdsMu.RLock()
+	// Take the pending entry atomically, so a request that reuses the id is never disturbed
+	c.processingCmdsMu.Lock()
 	respChan, ok := c.processingCmds[respCmd.ID]
-	c.processingCmdsMu.RUnlock()
+	if ok {
+		delete(c.processingCmds, respCmd.ID)
+	}
+	c.processingCmdsMu.Unlock()
 
 	if !ok {
 		return false
 	}
-
-	c.processingCmdsMu.Lock()
-	delete(c.processingCmds, respCmd.ID)
-	c.processingCmdsMu.Unlock()
 
 	respChan <- respCmd
 	return true
